@@ -13,7 +13,14 @@
   Sessions are numbered (the harness puts the number into Login.Hostname), run ids and proxy names are
   numbers.  Pointer equality `c == ctl` of ControlManager.Del is equality of session numbers.
 
-  NOT modelled: ports / routes / visitors held by a proxy (C09/C10), the work-connection pool (C11),
+  Resources behind a proxy: the two rendez-vous tables that are keyed BY PROXY NAME are modelled
+    server/visitor/visitor.go  Manager.listeners   (stcp, sudp: Listen / CloseListener)      `St.vis`
+    pkg/nathole/controller.go  Controller.clientCfgs (xtcp: ListenClient / CloseClient)      `St.nat`
+  because `Close()` of these proxy types releases the entry by name, whoever created it
+  (server/proxy/stcp.go, sudp.go, xtcp.go).  Ports and routes (tcp, udp, http …) are private to the proxy
+  object that acquired them (released by the value the object holds: C09/C10); whether `Run` gets them is an oracle.
+
+  NOT modelled: ports / routes held by a proxy (C09/C10), the work-connection pool (C11),
   MaxPortsPerClient, `Control.runID = ""` written by Replaced (only read for LoginResp and plugin
   notifications), plugins, heartbeat timing (a timeout is a `connClose`).
 -/
@@ -78,6 +85,12 @@ inductive HP
   | closing (p : Nat)    -- CloseProxy: pxy.Close(); pxyManager.Del done               (gate close.deleted)
 deriving DecidableEq, Repr, Inhabited
 
+/-- what `pxy.Run()` acquires: something private to the proxy object (`plain`: a port, routes), or an
+    entry under the proxy's NAME in the visitor manager (`vis`: stcp, sudp) / nat hole controller (`nat`: xtcp) -/
+inductive Kind
+  | plain | vis | nat
+deriving DecidableEq, Repr, Inhabited
+
 structure Rec where
   rid : Nat := 0                 -- loginMsg.RunID (after RandID for a login without run id)
   fresh : Bool := false          -- the login came without run id (ghost)
@@ -88,6 +101,8 @@ structure Rec where
   own : List Nat := []           -- ctl.proxies (keys)
   todo : List Nat := []          -- worker: keys of ctl.proxies not yet visited by the range loop
   deleted : Bool := false        -- the goroutine `WaitClosed; Del` has run its Del
+  vres : List Nat := []          -- names of this session's open proxy objects whose Run created a visitor listener
+  nres : List Nat := []          -- … a nat hole client entry
 deriving DecidableEq, Repr
 
 instance : Inhabited Rec := ⟨{}⟩
@@ -99,6 +114,8 @@ structure St where
   closed : Tbl Bool := {}            -- the control connection of the session is closed (by either side)
   ctr : Nat := 0                     -- ghost: number of Adds so far
   ids : List Nat := []               -- ghost: sessions created so far
+  vis : Tbl (Option Nat) := {}       -- visitor.Manager.listeners : name ↦ session whose proxy object created the entry
+  nat : Tbl (Option Nat) := {}       -- nathole.Controller.clientCfgs : name ↦ session whose proxy object created the entry
 deriving Repr
 
 def St.s (S : St) (n : Nat) : Rec := S.sess.get n
@@ -121,6 +138,12 @@ def Phase.live : Phase → Bool
 def insertKey (p : Nat) (l : List Nat) : List Nat := if p ∈ l then l else p :: l
 def removeKey (p : Nat) (l : List Nat) : List Nat := l.filter (fun q => q != p)
 
+/-- `pxy.Close()` of session `n`'s proxy object named `p`, rendez-vous part: STCPProxy/SUDPProxy.Close call
+    `VisitorManager.CloseListener(name)`, XTCPProxy.Close calls `NatHoleController.CloseClient(name)` — a delete
+    BY NAME, whoever is stored there.  (`p ∈ vres/nres` is the kind of the object being closed.) -/
+def relVis (S : St) (n p : Nat) : Tbl (Option Nat) := if p ∈ (S.s n).vres then S.vis.set p none else S.vis
+def relNat (S : St) (n p : Nat) : Tbl (Option Nat) := if p ∈ (S.s n).nres then S.nat.set p none else S.nat
+
 inductive Label
   | login (n r : Nat) (fresh : Bool)   -- RegisterControl up to ctlManager.Add (RandID if the login carries no run id)
   | add (n : Nat)                      -- ControlManager.Add under cm.mu, incl. old.Replaced(ctl)
@@ -133,7 +156,7 @@ inductive Label
   | done (n : Nat)                     -- worker: close(doneCh)
   | del (n : Nat)                      -- ctlManager.Del(runID, ctl) by the goroutine that waited for doneCh
   | regExist (n p : Nat)               -- RegisterProxy up to pxyManager.Exist
-  | regRun (n p : Nat) (ok : Bool)     -- pxy.Run()
+  | regRun (n p : Nat) (k : Kind) (ok : Bool)  -- pxy.Run() of a proxy of kind k (ok: oracle for `plain`)
   | regAdd (n p : Nat)                 -- pxyManager.Add (+ deferred pxy.Close() on error)
   | regOwn (n p : Nat)                 -- ctl.proxies[name] = pxy
   | closeReq (n p : Nat)               -- CloseProxy: own-table lookup, pxy.Close, pxyManager.Del
@@ -189,7 +212,8 @@ def step (S : St) : Label → Option St
     let x := S.s n
     -- pxy.Close(); ctl.pxyManager.Del(pxy.GetName())  — Del is BY NAME, whoever is stored there
     if x.phase = .drained ∧ p ∈ x.todo then
-      some { S.upd n (fun y => { y with todo := removeKey p y.todo }) with names := S.names.set p none }
+      some { S.upd n (fun y => { y with todo := removeKey p y.todo, vres := removeKey p y.vres, nres := removeKey p y.nres }) with
+               names := S.names.set p none, vis := relVis S n p, nat := relNat S n p }
     else none
   | .done n =>
     let x := S.s n
@@ -207,13 +231,26 @@ def step (S : St) : Label → Option St
       -- if ctl.pxyManager.Exist(name) { err = "proxy already exists" }
       if (S.names.get p).isSome then some S else some (S.upd n (fun y => { y with hp := .checked p }))
     else none
-  | .regRun n p ok =>
-    if (S.s n).hp = .checked p then some (S.upd n (fun y => { y with hp := if ok then .ran p else .idle }))
+  | .regRun n p k ok =>
+    if (S.s n).hp = .checked p then
+      match k with
+      | .plain => some (S.upd n (fun y => { y with hp := if ok then .ran p else .idle }))
+      | .vis =>
+        -- VisitorManager.Listen(name, …): "custom listener for [name] is repeated" iff the name has an entry;
+        -- a failed Run returns at once: nothing was acquired, nothing is released
+        if (S.vis.get p).isSome then some (S.upd n (fun y => { y with hp := .idle }))
+        else some { S.upd n (fun y => { y with hp := .ran p, vres := insertKey p y.vres }) with vis := S.vis.set p (some n) }
+      | .nat =>
+        -- NatHoleController.ListenClient(name, …): "proxy [name] is repeated" iff the name has an entry
+        if (S.nat.get p).isSome then some (S.upd n (fun y => { y with hp := .idle }))
+        else some { S.upd n (fun y => { y with hp := .ran p, nres := insertKey p y.nres }) with nat := S.nat.set p (some n) }
     else none
   | .regAdd n p =>
     if (S.s n).hp = .ran p then
       -- err = ctl.pxyManager.Add(name, pxy): refuses an occupied name; deferred pxy.Close() of the NEW proxy
-      if (S.names.get p).isSome then some (S.upd n (fun y => { y with hp := .idle }))
+      if (S.names.get p).isSome then
+        some { S.upd n (fun y => { y with hp := .idle, vres := removeKey p y.vres, nres := removeKey p y.nres }) with
+                 vis := relVis S n p, nat := relNat S n p }
       else some { S.upd n (fun y => { y with hp := .added p }) with names := S.names.set p (some n) }
     else none
   | .regOwn n p =>
@@ -224,7 +261,8 @@ def step (S : St) : Label → Option St
     if x.phase = .running ∧ x.hp = .idle then
       -- pxy, ok := ctl.proxies[name]; if !ok { return }; pxy.Close(); ctl.pxyManager.Del(pxy.GetName())
       if p ∈ x.own then
-        some { S.upd n (fun y => { y with hp := .closing p }) with names := S.names.set p none }
+        some { S.upd n (fun y => { y with hp := .closing p, vres := removeKey p y.vres, nres := removeKey p y.nres }) with
+                 names := S.names.set p none, vis := relVis S n p, nat := relNat S n p }
       else some S
     else none
   | .closeFin n p =>
@@ -237,6 +275,9 @@ def res (S : St) : Label → Res
   | .add n => match S.byRun.get (S.s n).rid with | some o => .old o | none => .noOld
   | .regExist _ p => if (S.names.get p).isSome then .refused else .proceed
   | .regAdd _ p => if (S.names.get p).isSome then .refused else .proceed
+  | .regRun _ p .vis _ => if (S.vis.get p).isSome then .refused else .proceed
+  | .regRun _ p .nat _ => if (S.nat.get p).isSome then .refused else .proceed
+  | .regRun _ _ .plain ok => if ok then .proceed else .refused
   | .closeReq n p => if p ∈ (S.s n).own then .proceed else .noop
   | _ => .none
 
@@ -245,7 +286,7 @@ def init : St := {}
 /-- the session a label belongs to -/
 def Label.sid : Label → Nat
   | .login n _ _ | .add n | .waitOld n | .start n | .connClose n | .dispDone n | .drain n
-  | .closeProxy n _ | .done n | .del n | .regExist n _ | .regRun n _ _ | .regAdd n _ | .regOwn n _
+  | .closeProxy n _ | .done n | .del n | .regExist n _ | .regRun n _ _ _ | .regAdd n _ | .regOwn n _
   | .closeReq n _ | .closeFin n _ => n
 
 /-- run a label list; `none` if some label is not enabled -/
